@@ -282,6 +282,18 @@ func (m *Muxer) validate() error {
 			return fmt.Errorf("%w: non-animated image must have exactly 1 frame", ErrMuxValidation)
 		}
 	}
+	// An ALPH chunk needs at least its header byte and can only accompany a
+	// lossy (VP8) bitstream; VP8L carries its own alpha.
+	for i, f := range m.frames {
+		if alphaData, bitstream := splitAlphaAndBitstream(f.data); alphaData != nil {
+			if len(alphaData) == 0 {
+				return fmt.Errorf("%w: frame %d has an empty ALPH chunk", ErrMuxValidation, i)
+			}
+			if detectBitstreamType(bitstream) == FourCCVP8L {
+				return fmt.Errorf("%w: frame %d combines an ALPH chunk with a VP8L bitstream", ErrMuxValidation, i)
+			}
+		}
+	}
 	// Offsets are stored halved in 24 bits and cannot be negative; the canvas
 	// dimensions are stored minus one in 24 bits (libwebp: MAX_POSITION_OFFSET,
 	// MAX_CANVAS_SIZE).
